@@ -185,24 +185,31 @@ def ast_to_py(v, depth=0):
     return {"$raw": str(v)[:200]}
 
 
-def _solve_one(job):
-    """Worker: returns dict(verdict, solver, time, reason, model)."""
-    oid, text, timeout_ms, input_names, use_cvc5 = job[:5]
-    ground = job[5] if len(job) > 5 else None
+def _stage_quick(job):
+    """Stage 1: quantifier-free hypotheses only, then plain z3 with a short budget."""
+    oid, text, timeout_ms, input_names, use_cvc5, ground = job
     if ground is not None:
         g = _z3_run(oid, ground, 1500, input_names)
         if g["verdict"] == "unsat":
             g["solver"] = "z3 (quantifier-free hypotheses only)"
             return g
-    inst = job[6] if len(job) > 6 else None
-    if inst is not None:
-        g = _z3_run(oid, inst, 4000, input_names)
-        if g["verdict"] == "unsat":
-            g["solver"] = "z3 (hypotheses instantiated at goal terms)"
-            return g
-    quick = _z3_run(oid, text, min(2000, timeout_ms) if use_cvc5 else timeout_ms, input_names)
-    if quick["verdict"] in ("sat", "unsat") or not use_cvc5:
-        return quick
+    return _z3_run(oid, text, min(2000, timeout_ms) if use_cvc5 else timeout_ms, input_names)
+
+
+def _stage_inst(job):
+    """Stage 2: hypotheses instantiated at the goal's terms (see to_smt2_inst)."""
+    oid, inst, input_names = job
+    g = _z3_run(oid, inst, 5000, input_names)
+    if g["verdict"] == "unsat":
+        g["solver"] = "z3 (hypotheses instantiated at goal terms)"
+    else:
+        g["verdict"] = "unknown"   # a weaker hypothesis set: only `unsat` means anything
+    return g
+
+
+def _stage_slow(job):
+    """Stage 3: cvc5, then z3 with the full budget and other seeds."""
+    oid, text, timeout_ms, input_names, quick = job
     res = _cvc5_run(quick, text, timeout_ms)
     if res["verdict"] in ("sat", "unsat"):
         return res
@@ -283,25 +290,44 @@ def _cvc5_run(res, text, timeout_ms):
     return res
 
 
+def _pmap(fn, jobs, workers):
+    if not jobs:
+        return []
+    if len(jobs) <= 2:
+        return [fn(j) for j in jobs]
+    with ProcessPoolExecutor(max_workers=min(workers, len(jobs))) as ex:
+        return list(ex.map(fn, jobs, chunksize=1))
+
+
 def solve_all(obligations, timeout_ms=10000, workers=None, use_cvc5=True):
-    """Discharge obligations in parallel. Returns {oid: result-dict}."""
+    """Discharge obligations in parallel, in three stages of increasing cost. Returns {oid: result-dict}."""
+    workers = workers or 16
+    by_oid = {ob.oid: ob for ob in obligations}
+    texts, names = {}, {}
     jobs = []
     for ob in obligations:
-        text = to_smt2(ob)
-        names = [str(t) for t, _ in ob.inputs.values()] if ob.inputs else []
-        try:
-            inst = to_smt2_inst(ob)
-        except Exception:  # noqa: BLE001  (instantiation is an optimisation: never fatal)
-            inst = None
-        jobs.append((ob.oid, text, timeout_ms, names, use_cvc5, to_smt2_ground(ob), inst))
-    workers = workers or min(16, max(1, len(jobs)))
-    results = {}
-    if len(jobs) <= 2:
-        for j in jobs:
-            r = _solve_one(j)
-            results[r["oid"]] = r
+        texts[ob.oid] = to_smt2(ob)
+        names[ob.oid] = [str(t) for t, _ in ob.inputs.values()] if ob.inputs else []
+        jobs.append((ob.oid, texts[ob.oid], timeout_ms, names[ob.oid], use_cvc5, to_smt2_ground(ob)))
+    results = {r["oid"]: r for r in _pmap(_stage_quick, jobs, workers)}
+    if not use_cvc5:
         return results
-    with ProcessPoolExecutor(max_workers=workers) as ex:
-        for r in ex.map(_solve_one, jobs, chunksize=1):
+    open_ = [o for o, r in results.items() if r["verdict"] not in ("sat", "unsat")]
+    # stage 2 (only for the obligations still open): one-shot instantiation, built in this process
+    jobs2 = []
+    for o in open_:
+        try:
+            inst = to_smt2_inst(by_oid[o])
+        except Exception:  # noqa: BLE001  (an optimisation: never fatal)
+            inst = None
+        if inst is not None:
+            jobs2.append((o, inst, names[o]))
+    for r in _pmap(_stage_inst, jobs2, workers):
+        if r["verdict"] == "unsat":
+            r["time"] = r.get("time", 0) + results[r["oid"]].get("time", 0)
             results[r["oid"]] = r
+    open_ = [o for o, r in results.items() if r["verdict"] not in ("sat", "unsat")]
+    jobs3 = [(o, texts[o], timeout_ms, names[o], results[o]) for o in open_]
+    for r in _pmap(_stage_slow, jobs3, workers):
+        results[r["oid"]] = r
     return results
